@@ -25,7 +25,7 @@ var (
 	c02Images = []string{"nginx", "nginx:1.25", "postgres", "redis", "ngin"}
 	c02States = []string{"running", "exited", "paused"}
 	c02Keys   = []string{"env", "com.docker.compose.service", "app-name", "a/b", "tier", "org.label-schema.name", "Env", "x y", "größe", "t٣"}
-	c02Vals   = []string{"prod", "production", "pro", "", "dev", "a.b", "a|b", "x y", "(1)", "PROD"}
+	c02Vals   = []string{"prod", "production", "pro", "", "dev", "a.b", "a|b", "x y", "(1)", "PROD", " prod", "prod ", " ", "dev\t"}
 )
 
 type selMatcher struct {
